@@ -16,7 +16,7 @@ type Entry struct {
 	Mode  os.FileMode
 	Size  int64
 	Ino   uint64
-	Mtime int64 // ns
+	Mtime int64  // ns
 	Sum   string // sha256 of regular files, link target of symlinks
 }
 
@@ -111,8 +111,18 @@ func WriteTree(root string, files map[string]string) error {
 			}
 			continue
 		}
+		if strings.HasPrefix(c, "=>") { // hard link to an absolute path written earlier (links are made last)
+			continue
+		}
 		if err := os.WriteFile(full, []byte(c), 0o644); err != nil {
 			return err
+		}
+	}
+	for _, p := range paths {
+		if c := files[p]; strings.HasPrefix(c, "=>") {
+			if err := os.Link(c[2:], filepath.Join(root, p)); err != nil {
+				return err
+			}
 		}
 	}
 	return nil
